@@ -48,6 +48,8 @@ def run(chk: Check, proj: Project) -> None:
     s8(chk, proj, m, fc)
     s9(chk, proj, m, fc, fs)
     s10(chk, proj, m)
+    s11_keyword_means_key_is_not_none(chk, proj)
+    s12_dispatch_by_the_render_function(chk, proj, m)
 
 
 def s10(chk: Check, proj: Project, m) -> None:
@@ -344,9 +346,16 @@ def _events(f) -> List[Tuple[str, int, str]]:
 
     pos = next((s for s in arg_loop.body if isinstance(s, ast.If) and norm(s.test) == f"{P}.key is None"), None)
     if pos is None:
-        raise AnalysisError(f"{f.name}: `if <param>.key is None` dispatch vanished")
-    walk(pos.body, "positional", 0)
-    walk(pos.orelse, "keyword", 0)
+        # the same dispatch written by truthiness (`if not <param>.key`, canonical form `if <param>.key: keyword else: positional`):
+        # the event comparison still applies; S11 judges the test itself
+        alt = next((s for s in arg_loop.body if isinstance(s, ast.If) and norm(s.test) == f"{P}.key"), None)
+        if alt is None:
+            raise AnalysisError(f"{f.name}: `if <param>.key is None` dispatch vanished")
+        walk(alt.orelse, "positional", 0)
+        walk(alt.body, "keyword", 0)
+    else:
+        walk(pos.body, "positional", 0)
+        walk(pos.orelse, "keyword", 0)
     walk(extra[0].body, "extra-kwargs", 0)
     for s in [x for x in dflt_loop.body if isinstance(x, ast.If)]:
         if isinstance(s.body[-1], ast.Continue) and len(s.body) == 1:
@@ -518,6 +527,52 @@ def s7(chk: Check, proj: Project, m, fc) -> None:
            f"`{short(enclosing_stmt(raw[0]))}` uses the whole co_varnames (parameters AND the *args/**kwargs names AND every local variable of render) as if it were the parameter list: a keyword spelled like a local of render() is rejected although **kwargs would take it")
     inv = {k: g for k, g in inventory(proj).items() if k.startswith("util.template_tag:") and g.kind in ("dict", "list", "set", "container", "lru_cache", "weakdict")}
     chk.ob("S7", "util.template_tag:no-module-memo", m.loc(m.tree), not inv, "util.template_tag has no module-level mutable state" if not inv else f"module-level state {sorted(inv)} in the validation module: validation results depend on earlier calls")
+
+
+def s11_keyword_means_key_is_not_none(chk: Check, proj: Project) -> None:
+    chk.rule("S11", "an argument is a keyword argument exactly when it HAS a key (`key is not None`): the wrapper and both validators never decide by the key's truthiness - the empty string is a legal key of a spread mapping (`...d` with d = {'': 5}), Python binds it into **kwargs, and a truthiness test turns it into a positional argument (bound to the first free parameter, or refused with a bogus 'positional argument follows keyword argument')")
+    sites = [("util.template_tag", "_validate_params_with_code"), ("util.template_tag", "_validate_params_with_signature"), ("node", "NodeMeta.__new__")]
+    n = 0
+    for mod_, qn in sites:
+        r = proj.try_func(mod_, qn)
+        if r is None:
+            continue
+        m2, fn = r
+        for t in [x.test for x in ast.walk(fn) if isinstance(x, (ast.If, ast.IfExp, ast.While))] + [g for x in ast.walk(fn) if isinstance(x, ast.comprehension) for g in x.ifs]:
+            for e in ast.walk(t):
+                iskey = (isinstance(e, ast.Name) and e.id == "key") or (isinstance(e, ast.Attribute) and e.attr == "key")
+                if not iskey:
+                    continue
+                par = getattr(e, "parent", None)
+                n += 1
+                truthy = par is None or e is t or (isinstance(par, ast.UnaryOp) and isinstance(par.op, ast.Not)) or (isinstance(par, ast.BoolOp))
+                in_cmp = isinstance(par, ast.Compare) or isinstance(par, (ast.Call, ast.Subscript, ast.Attribute, ast.JoinedStr, ast.FormattedValue))
+                if in_cmp and not (e is t):
+                    truthy = False
+                chk.ob("S11", f"{mod_}:{qn.split('.')[-1]}:{short(t, 50)}:key-tested-against-None", m2.loc(e), not truthy,
+                       f"`{short(t)}` compares / uses the key, it does not test its truthiness" if not truthy else
+                       f"`{short(t)}` decides keyword-vs-positional by the TRUTHINESS of the key: a spread mapping with the empty-string key (`{{% tag ...d %}}`, d = {{'': 5}}) is handed to render() as a positional argument, where the Python call `render(**d)` binds kwargs[''] = 5")
+    chk.floor("S11", n, 3)
+
+
+def s12_dispatch_by_the_render_function(chk: Check, proj: Project, m) -> None:
+    chk.rule("S12", "the fast validator reads the code object of the very callable that wrapper_render will call with (self, context, ...): it is chosen only when THAT callable has `__code__`, and it is handed that callable - a callable object's `__call__` is a bound method whose code object also counts its own `self`, so the fixed 'skip two parameters' strips (self, node) instead of (node, context) and `context` is taken for the first tag argument")
+    f = m.func("validate_params")
+    chk.analysed(fkey(m, f))
+    fp = params(f)[0]
+    cs = [c for c in calls(f) if last_attr(c.func) == "_validate_params_with_code"]
+    chk.floor("S12", len(cs), 1)
+    for c in cs:
+        a0 = c.args[0] if c.args else None
+        ok = isinstance(a0, ast.Name) and a0.id == fp and not [1 for st, v in assignments(f, fp)]
+        chk.ob("S12", "util.template_tag:validate_params:fast-path-gets-the-render-callable", m.loc(c), ok,
+               f"the fast path inspects `{fp}` itself" if ok else
+               f"`{short(c)}` inspects `{short(a0) if a0 is not None else '?'}`, which is not the callable that will be called (`{fp}`): for a render given as a callable object the code object is that of the bound `__call__`, the two skipped parameters are the wrong two, and `{{% tag 'John' %}}` raises TypeError although the Python call succeeds")
+    # the test that selects the fast path asks `__code__` of the parameter itself
+    sel = [x for x in ast.walk(f) if isinstance(x, ast.Call) and norm(x.func) == "hasattr" and len(x.args) == 2 and isinstance(x.args[1], ast.Constant) and x.args[1].value == "__code__"]
+    oks = bool(sel) and all(isinstance(x.args[0], ast.Name) and x.args[0].id == fp for x in sel)
+    chk.ob("S12", "util.template_tag:validate_params:fast-path-chosen-for-the-render-callable", m.loc(sel[0]) if sel else m.loc(f), oks,
+           f"hasattr({fp}, '__code__') selects the fast path" if oks else "the fast path is selected by the `__code__` of something other than the render callable")
 
 
 MANIFEST = {
